@@ -307,6 +307,45 @@ func handle(verb string, a []string) string {
 				}
 			}()
 		}
+		// clients that are in the middle of request/reply round trips when the termination comes
+		nbusy := 0
+		if len(a) > 3 {
+			nbusy = atoi(a[3])
+		}
+		var busyAlive atomic.Int64
+		var busyWg sync.WaitGroup
+		var closeReturned atomic.Bool
+		for i := 0; i < nbusy; i++ {
+			c, err := net.DialTimeout("tcp", addr, time.Second)
+			if err != nil {
+				continue
+			}
+			busyWg.Add(1)
+			go func(c net.Conn) {
+				defer busyWg.Done()
+				defer c.Close()
+				buf := make([]byte, 64)
+				servedAfterClose := 0
+				for {
+					c.SetDeadline(time.Now().Add(400 * time.Millisecond))
+					if _, err := c.Write([]byte("*1\r\n$4\r\nPING\r\n")); err != nil {
+						return
+					}
+					if k, err := c.Read(buf); err != nil || k == 0 {
+						return
+					}
+					if closeReturned.Load() {
+						// still served although Close() has returned (or hangs): give it a few more rounds, then count it
+						servedAfterClose++
+						if servedAfterClose > 20 {
+							busyAlive.Add(1)
+							return
+						}
+						time.Sleep(5 * time.Millisecond)
+					}
+				}
+			}(c)
+		}
 		time.Sleep(time.Duration(atoi(a[2])) * time.Microsecond)
 		closed := make(chan struct{})
 		t0 := time.Now()
@@ -318,9 +357,11 @@ func handle(verb string, a []string) string {
 			hung = true
 		}
 		took := time.Since(t0)
+		closeReturned.Store(true)
 		stop.Store(true)
 		wg.Wait()
-		survivors := 0
+		busyWg.Wait()
+		survivors := int(busyAlive.Load())
 		for _, c := range conns {
 			c.SetDeadline(time.Now().Add(300 * time.Millisecond))
 			if _, err := c.Write([]byte("*1\r\n$4\r\nPING\r\n")); err == nil {
